@@ -127,6 +127,7 @@ def run(ck, F):
         ck.rules[r]['floor'] = 9
     ck.rules[K.R_cover]['floor'] = 8
     ck.rules[K.R_atom]['floor'] = 1
+    ck.rules[K.R_guard]['floor'] = 8
     ck.extra['tables'] = sorted(tables)
 
     # ------------------------------------------------------------ Overload::operator[] / elements / type
